@@ -266,6 +266,11 @@ impl DepthFirstSearch {
         goal.status = GoalStatus::InProgress;
         goal.depth = depth;
 
+        // `self.solutions` is shared by every level of the recursion (it also holds the
+        // proofs of the sub-goals that candidate rules' conditions turned into), so it
+        // cannot tell whether THIS goal was proven: remember that here.
+        let mut solution_found = false;
+
         // Try each candidate rule
         for rule_name in goal.candidate_rules.clone() {
             self.path.push(rule_name.clone());
@@ -288,8 +293,14 @@ impl DepthFirstSearch {
                             bindings: goal.bindings.to_map(),
                         });
 
-                        // If we only want one solution OR we've found enough, stop searching
-                        if self.max_solutions == 1 || self.solutions.len() >= self.max_solutions {
+                        // If we only want one solution OR we've found enough, stop searching.
+                        // A sub-goal (depth > 0) is proven once, and what its proof derived has to
+                        // stay in the facts for the rule whose condition it is: only the top-level
+                        // goal of a search looks for alternative solutions.
+                        if depth > 0
+                            || self.max_solutions == 1
+                            || self.solutions.len() >= self.max_solutions
+                        {
                             // keep changes: close this candidate's undo frame, handing its
                             // records to the enclosing frame (if any) so that a caller that
                             // fails later can still roll them back
@@ -298,6 +309,7 @@ impl DepthFirstSearch {
                         }
 
                         // Otherwise (max_solutions > 1 and not enough yet), rollback and continue
+                        solution_found = true;
                         facts.rollback_undo_frame();
                         self.path.pop();
                         continue;
@@ -320,7 +332,9 @@ impl DepthFirstSearch {
                                     });
 
                                     // If we only want one solution OR we've found enough, stop searching
-                                    if self.max_solutions == 1
+                                    // (a sub-goal is proven once, see above)
+                                    if depth > 0
+                                        || self.max_solutions == 1
                                         || self.solutions.len() >= self.max_solutions
                                     {
                                         // keep changes (see above)
@@ -329,6 +343,7 @@ impl DepthFirstSearch {
                                     }
 
                                     // Otherwise, rollback and continue searching
+                                    solution_found = true;
                                     facts.rollback_undo_frame();
                                     self.path.pop();
                                     continue;
@@ -376,8 +391,9 @@ impl DepthFirstSearch {
             facts.rollback_undo_frame();
         }
 
-        // If we found at least one solution (even if less than max_solutions), consider it proven
-        if !self.solutions.is_empty() {
+        // If we found at least one solution for this goal (even if less than max_solutions),
+        // consider it proven
+        if solution_found {
             goal.status = GoalStatus::Proven;
             // For negated goals, finding a proof means negation fails
             return !goal.is_negated;
